@@ -30,7 +30,7 @@ def dev(argv):
                 continue
             r = verify_function(reg, fe, con)
             obs = r.obligations
-            print("== %s status=%s %s paths=%d obligations=%d" % (target, r.status, r.reason, r.paths, len(obs)))
+            print("== %s status=%s %s paths=%d obligations=%d %s" % (target, r.status, r.reason, r.paths, len(obs), r.partial or ""))
         for a in sys.argv:
             if a.startswith("--dump="):
                 from .solve import to_smt2
